@@ -947,16 +947,26 @@ where
             let now = self.current_time_from_expiration_clock();
             let (ttl, tti, va) = (&self.time_to_live, &self.time_to_idle, &self.valid_after());
             let mut errs = Vec::new();
-            let dead_ao = deqs
-                .probation
-                .verif_walk("probation", &mut errs)
-                .iter()
-                .any(|n| is_expired_entry_ao(tti, va, unsafe { n.as_ref() }, now));
-            let dead_wo = deqs
-                .write_order
-                .verif_walk("write_order", &mut errs)
-                .iter()
-                .any(|n| is_expired_entry_wo(ttl, va, unsafe { n.as_ref() }, now));
+            // (a dead node at the very front would have been purged; only a dead node
+            // *behind* a live one is out of the purge's reach)
+            let mut live_seen = false;
+            let mut dead_ao = false;
+            for n in deqs.probation.verif_walk("probation", &mut errs) {
+                if is_expired_entry_ao(tti, va, unsafe { n.as_ref() }, now) {
+                    dead_ao |= live_seen;
+                } else {
+                    live_seen = true;
+                }
+            }
+            let mut live_seen = false;
+            let mut dead_wo = false;
+            for n in deqs.write_order.verif_walk("write_order", &mut errs) {
+                if is_expired_entry_wo(ttl, va, unsafe { n.as_ref() }, now) {
+                    dead_wo |= live_seen;
+                } else {
+                    live_seen = true;
+                }
+            }
             if dead_ao || dead_wo {
                 crate::verif::probe("cause.no_room_with_dead_resident", kh.hash);
             }
